@@ -13,9 +13,40 @@ from common import enc, dec, err_kind
 ID = "C19"
 RULE = ("structured random cases per generator (all 8 numbers-vs-streams combinations of modulo_counter, "
         "steps zero / negative / multiples of the modulo, constant and time-varying modulo, durations "
-        "integer / fractional / 0 / inf); a case is non-trivial when the impl yields at least one sample; "
-        "distinct = distinct JSON case")
+        "integer / fractional / 0 / inf; numbers as int / float / Fraction / bool / int and float subclasses; "
+        "streams as list / tuple / deque / iterator / generator / Stream / Stream subclass overriding __iter__ / thub / "
+        "bare iterable; one object passed for two or three arguments; a list argument changed in place after the call; "
+        "a source that raises) + histories of mutable TableLookup objects (entry tl_hist: heap of lists, objects sharing "
+        "lists, open streams; attribute assignments, in-place list changes, operators, failing steps interleaved with "
+        "uses, every step compared with the Lean model and spec of the history) + pools of 2-5 generator calls alive at "
+        "once, consumed in interleaved chunks and sharing argument objects, or repeated with equal arguments of other "
+        "numeric types (entry multi: every call compared with the Lean model/spec of that call alone, shared containers "
+        "must keep their pristine items) + long runs (up to 50 000 samples; int(modulo/step) = 2**k -1/0/+1 for k = 2..14 "
+        "in all 8 argument combinations, at least two batch boundaries crossed; every other generator with thousands of "
+        "samples; a sparse set of positions - first items, neighbourhood of batch boundaries and powers of two, random, "
+        "last - plus the length and the end are compared exactly); a case is non-trivial when the impl yields at least "
+        "one sample (multi: two calls do); distinct = distinct JSON case")
 TRUSTED = [
+    "histories (tl_hist): hand-written Lean model ALV/Model/C19Obj.lean of the TableLookup object (reference to a python "
+    "list, length cached by the `table` setter, `cycles`), of python list item assignment / append / pop, of operator "
+    "dispatch (TableLookup vs int/float/complex scalar vs other -> NotImplementedError) and of the lazy stream returned by "
+    "a call (captures the list, the cached length and cycles*2*pi at the call); the generator-side python port "
+    "harness/props/c19_hist.py:Sim only chooses valid references and is never an oracle",
+    "pools (multi) and every single call: the Lean model / spec is a pure function of one call's own argument values "
+    "(`ALV.Driver.C19.handle \"multi\"` answers each request of a pool by `handleIdx` on that request alone), so 'the result "
+    "depends only on the call's own arguments, not on other calls alive or made before' holds for the model by "
+    "construction (nothing to prove); that the REAL code keeps no state between calls or objects and leaves its arguments "
+    "alone is what the multi / history cases test, it is not proved",
+    "long runs: the Lean side runs the code-shaped model and the specs (recursive layer; closed layer for a constant modulo, "
+    "equal to the model by theorems modulo_counter_eq_rec / modulo_counter_const_modulo) over the whole run and transports "
+    "the picked positions; comparing a sparse set of positions can miss a difference confined to unpicked positions "
+    "(positions are drawn around every batch boundary j*int(modulo/step), j*4096 and 2**e, plus random ones)",
+    "what a lazily consumed argument delivers is python's business: one one-shot iterator passed for several arguments is "
+    "pulled in the order start, modulo, step by the lock-step reader (the arguments stand for the interleaved "
+    "subsequences); a python list changed in place delivers, for positions at least 2 ahead of the consumer, the new items; "
+    "TableLookup attributes (`table`: which list; `cycles`) are read at the call: a stream already returned is not "
+    "affected by later attribute assignments (theorem hist_stream_isolated); what an open stream yields after the list it "
+    "refers to was changed in place is NOT fixed by the property (such streams are not read again)",
     "hand-written Lean model ALV/Model/C19.lean of lazy_synth (modulo_counter, line, fades, ones, zeros, impulse, "
     "adsr, attack, TableLookup call/getitem/operators/normalize/harmonize, sinusoid, karplus_strong, noise durations) "
     "and lazy_poly.resample + lagrange.func (modelled, not verified: Python's %, int(), math.ceil, zip, deque(maxlen), "
@@ -36,18 +67,28 @@ ASSUMPTIONS = [
     "TableLookup: freq / phase are numbers or Streams (plain lists cannot be multiplied by a float); the table is not empty",
     "resample: steps old/new >= 0 (theorem hypothesis and generator), new != 0, orders 0..5; in the float regime the "
     "steps are dyadic so that the window decisions (idx > threshold) are exact",
-    "TableLookup operators: scalars are int / float (the code rejects other numeric types); normalize on int/float tables",
+    "TableLookup operators: scalars are int / float / bool / subclasses (other numeric types: NotImplementedError, "
+    "modelled in the histories); normalize on int/float tables",
+    "TableLookup histories: tables are non-empty python lists of int / float items; cycles != 0; lists are resized in "
+    "place (append / pop) only in the histories marked unsafe, where the cached length goes stale (defect D16, theorem "
+    "hypothesis HOp.safe); `tl.table = None` (a failing assignment, defect D17) likewise; after it only the table, len, "
+    "tl[idx], a call and a repairing assignment are observed",
+    "long runs: values are small dyadic rationals so that binary floating point is exact over tens of thousands of steps",
 ]
 MANIFEST = {
-    "text": "37 Lean 4 theorems over any linearly ordered field with a floor (Q, R): every branch and fast path of "
+    "text": "48 Lean 4 theorems over any linearly ordered field with a floor (Q, R): every branch and fast path of "
             "modulo_counter = recursive spec = closed form (constant modulo), range, length; line/fades/ones/zeros/"
             "impulse/adsr/attack shapes and durations; TableLookup = cyclic linear interpolation of the unreduced "
             "position; sinusoid = sin(phase + k freq) over R; karplus_strong shift register = recursion; resample "
             "generator loop = order-p Lagrange interpolation at m*old/new on the zero-extended input, ending with "
-            "its input; tied to /repo by a differential correspondence (exact in the dyadic / Fraction regime)",
+            "its input; histories of mutable TableLookup objects (heap of lists / objects / open streams): invariant kept by "
+            "every operation incl. failing ones, each use answered from the current table and cycles only, open streams "
+            "isolated from later assignments, operators allocate, failing steps change nothing; tied to /repo by a "
+            "differential correspondence (exact in the dyadic / Fraction regime) incl. object histories, pools of "
+            "generators sharing arguments and long runs across the batch boundaries of every fast path",
     "note": "Trusted: Lean kernel, axioms propext/Classical.choice/Quot.sound, the Python harness; the model is hand "
-            "written and validated against the code differentially. Known genuine defects D6, D8, D14, D15 are "
-            "reported as KNOWN-FINDING with proposed fixes under proposed_fixes/.",
+            "written and validated against the code differentially. Known genuine defects D6, D8, D14, D15 (fixed), D16 (stale "
+            "cached table length) and D17 (failing `table` assignment is not atomic) are recorded in known_findings/C19.json with proposed fixes under proposed_fixes/.",
 }
 
 F = Fraction
@@ -56,16 +97,37 @@ F = Fraction
 # ----------------------------------------------------------------------------------------------
 # value transport: {"v": exact, "t": "i"|"f"|"F"}
 # ----------------------------------------------------------------------------------------------
+class MyInt(int):
+    """an int subclass (isinstance(x, int) holds, type(x) is not int)"""
+
+
+class MyFloat(float):
+    """a float subclass"""
+
+
 def py(v, t):
+    """types: i int, f float, F Fraction, b bool (0/1), I int subclass, X float subclass"""
     q = dec(v)
-    if t == "i":
-        assert q.denominator == 1
-        return int(q)
-    if t == "f":
+    if t in ("i", "I", "b"):
+        assert q.denominator == 1 and (t != "b" or q in (0, 1))
+        return int(q) if t == "i" else MyInt(int(q)) if t == "I" else bool(q)
+    if t in ("f", "X"):
         x = float(q)
         assert Fraction(x) == q, "not exactly representable: %r" % (v,)
-        return x
+        return x if t == "f" else MyFloat(x)
     return Fraction(q)
+
+
+def fit_type(t, r):
+    """the type tag `t` if the rational r can be given that type, else "F" """
+    r = Fraction(r)
+    if t in ("i", "I"):
+        return t if r.denominator == 1 else "F"
+    if t == "b":
+        return t if r in (0, 1) else ("i" if r.denominator == 1 else "F")
+    if t in ("f", "X"):
+        return t if is_dyadic(r, 60) and abs(r.numerator) < 2 ** 53 else "F"
+    return "F"
 
 
 def dyadic(rng, big=False):
@@ -80,7 +142,13 @@ def typ_for(q, rng, allow_float=True):
         ts.append("i")
     if allow_float and q.denominator & (q.denominator - 1) == 0:
         ts += ["f", "f"]
-    return rng.choice(ts)
+    t = rng.choice(ts)
+    if rng.random() < 0.06:                      # numbers of unusual types
+        if t == "i":
+            t = "b" if q in (0, 1) and rng.random() < 0.5 else "I"
+        elif t == "f":
+            t = "X"
+    return t
 
 
 def drain(it, n):
@@ -97,6 +165,43 @@ def drain(it, n):
         return out, err_kind(e)
 
 
+def encs(c, out):
+    """the outputs of a case in transport form: all of them, or (long runs) only the picked positions"""
+    if "pick" in c:
+        return {"n": len(out), "at": [enc(out[i]) for i in c["pick"] if i < len(out)]}
+    return [enc(x) for x in out]
+
+
+def drain_co(it, n):
+    """`drain` as a coroutine: before every chunk it yields (taken so far, wanted) and is sent the
+    size of the next chunk (None = all the rest), so that a scheduler can interleave the
+    consumption of several generators (entry "multi") or act between two chunks."""
+    out = []
+    try:
+        it = iter(it)
+        while len(out) < n:
+            k = yield (len(out), n)
+            k = n - len(out) if k is None else max(1, min(k, n - len(out)))
+            for _ in range(k):
+                out.append(next(it))
+        return out, "fuel"
+    except StopIteration:
+        return out, "stop"
+    except Exception as e:
+        return out, err_kind(e)
+
+
+def run_co(g, chunks=None):
+    """run an impl coroutine alone; `chunks`: sizes of the successive chunks (then all the rest)"""
+    chunks = list(chunks or [])
+    try:
+        g.send(None)
+        while True:
+            g.send(chunks.pop(0) if chunks else None)
+    except StopIteration as e:
+        return e.value
+
+
 # ----------------------------------------------------------------------------------------------
 # modulo_counter
 # ----------------------------------------------------------------------------------------------
@@ -105,23 +210,122 @@ def mc_arg(rng, vals, allow_float):
     if isinstance(vals, list):
         t = rng.choice(["f", "F", "mixed"]) if allow_float else rng.choice(["F", "mixed"])
         ts = [typ_for(v, rng, allow_float) if t == "mixed" else t for v in vals]
-        return {"strm": [enc(v) for v in vals], "ts": ts, "kind": rng.choice(["list", "iter", "Stream", "tuple"])}
+        return {"strm": [enc(v) for v in vals], "ts": ts, "kind": rng.choice(KINDS)}
     return {"num": enc(vals), "t": typ_for(vals, rng, allow_float)}
 
 
-def mc_build(a):
-    from audiolazy import Stream
-    if "num" in a:
-        return py(a["num"], a["t"])
-    xs = [py(v, t) for v, t in zip(a["strm"], a["ts"])]
-    k = a.get("kind", "list")
+KINDS = ("list", "iter", "Stream", "tuple", "gen", "deque", "sub", "thub", "iterable")
+ONE_SHOT = ("iter", "Stream", "gen", "sub")          # one object = one pass over the items
+_SUB = []
+
+
+def stream_subclass():
+    """a Stream subclass overriding __iter__ (made once, after audiolazy is importable)"""
+    if not _SUB:
+        from audiolazy import Stream
+
+        class SubStream(Stream):
+            def __iter__(self):
+                for x in Stream.__iter__(self):
+                    yield x
+        _SUB.append(SubStream)
+    return _SUB[0]
+
+
+class OnlyIterable(object):
+    """an object that is Iterable (has __iter__) and nothing else"""
+    def __init__(self, xs):
+        self.xs = xs
+
+    def __iter__(self):
+        return iter(self.xs)
+
+
+def arg_items(a):
+    """the exact items of a stream argument ({"strm"} or the compact {"cyc", "len"})"""
+    if "cyc" in a:
+        pat = a["cyc"]
+        return [pat[i % len(pat)] for i in range(a["len"])] if pat else []
+    return a["strm"]
+
+
+def arg_types(a):
+    if "cyc" in a:
+        ts = a["ts"]
+        return [ts[i % len(ts)] for i in range(a["len"])] if ts else []
+    return a["ts"]
+
+
+def is_strm(a):
+    return "strm" in a or "cyc" in a
+
+
+def build_stream(xs, k, users=1):
+    from audiolazy import Stream, thub
+    import collections
     if k == "iter":
         return iter(xs)
     if k == "Stream":
         return Stream(xs)
     if k == "tuple":
         return tuple(xs)
+    if k == "gen":
+        return (x for x in xs)
+    if k == "deque":
+        return collections.deque(xs)
+    if k == "sub":
+        return stream_subclass()(xs)
+    if k == "thub":
+        return thub(Stream(xs), users)
+    if k == "iterable":
+        return OnlyIterable(xs)
     return xs
+
+
+def arg_values(a):
+    """the python items of a stream argument"""
+    if "cyc" in a:
+        pat = [py(v, t) for v, t in zip(a["cyc"], a["ts"])]
+        return [pat[i % len(pat)] for i in range(a["len"])] if pat else []
+    return [py(v, t) for v, t in zip(a["strm"], a["ts"])]
+
+
+_SHARE = None        # entry "multi": share key -> (object, pristine items, kind) while a pool of calls runs
+
+
+def track(tr, obj, items):
+    """remember a container handed to the code under test, with a pristine copy of its items"""
+    if tr is not None and isinstance(obj, (list, tuple, OnlyIterable)) or type(obj).__name__ in ("deque", "array"):
+        if tr is not None:
+            tr.append((obj, list(items)))
+    return obj
+
+
+def args_intact(tr):
+    """no container handed to the code was changed by it"""
+    for obj, pristine in tr:
+        now = list(obj.xs) if isinstance(obj, OnlyIterable) else list(obj)
+        if len(now) != len(pristine) or any(type(x) is not type(y) or x != y for x, y in zip(now, pristine)):
+            return False
+    return True
+
+
+def finish(tr, out, end, c):
+    return {"out": encs(c, out), "end": end if args_intact(tr) else "ARG-MUTATED"}
+
+
+def mc_build(a, tr=None):
+    if "num" in a:
+        return py(a["num"], a["t"])
+    if _SHARE is None or "share" not in a:
+        xs = arg_values(a)
+        return track(tr, build_stream(xs, a.get("kind", "list")), xs)
+    if _SHARE is not None and "share" in a:
+        if a["share"] not in _SHARE:
+            xs = arg_values(a)
+            _SHARE[a["share"]] = (build_stream(xs, a["kind"], a.get("users", 1)), list(xs), a["kind"])
+        return _SHARE[a["share"]][0]
+    return build_stream(arg_values(a), a.get("kind", "list"))
 
 
 def gen_mc(rng, tier, scale):
@@ -185,20 +389,137 @@ def gen_mc(rng, tier, scale):
             else:
                 step = step_val()
             af = not fraction_regime
-            cases.append({"entry": "modulo_counter", "n": n,
-                          "start": mc_arg(rng, start, af), "modulo": mc_arg(rng, modulo, af),
-                          "step": mc_arg(rng, step, af)})
+            c = {"entry": "modulo_counter", "n": n,
+                 "start": mc_arg(rng, start, af), "modulo": mc_arg(rng, modulo, af),
+                 "step": mc_arg(rng, step, af)}
+            mc_flavour(rng, c)
+            cases.append(c)
     return cases
 
 
-def impl_mc(c):
+def mc_flavour(rng, c):
+    """rarely used ways of passing the arguments: one object for several arguments, a list
+    argument changed in place while the counter is alive, a source that raises"""
+    strms = [k for k in MC_ARGS if is_strm(c[k])]
+    r = rng.random()
+    if r < 0.10 and len(strms) >= 2:
+        group = strms if rng.random() < 0.5 else sorted(rng.sample(strms, 2), key=MC_ARGS.index)
+        base = c[group[0]]
+        if group[0] != "modulo" and "modulo" in group:
+            base["strm"] = [x if dec(x) != 0 else 3 for x in base["strm"]]   # the modulo reads it too
+            base["ts"] = [t if t != "b" else "i" for t in base["ts"]]
+        for k in group[1:]:
+            c[k] = dict(base)
+        c["alias"] = group
+    elif r < 0.20 and strms:
+        k = rng.choice(strms)
+        a = c[k]
+        L = len(a["strm"])
+        at = min(c["n"], rng.choice([0, 0, 1, 2, rng.randint(0, max(0, c["n"] - 1))]))
+        if L > at + 2:
+            a["kind"] = "list"
+            pos = rng.randint(at + 2, L - 1)
+            v = dyadic(rng)
+            if k == "modulo" and v == 0:
+                v = F(5)
+            c["late"] = {"arg": k, "at": at, "k": pos, "v": enc(v),
+                         "t": "f" if any(t in ("f", "X") for t in a["ts"]) else "F"}
+    elif r < 0.28 and strms:
+        k = rng.choice(strms)
+        after = rng.randint(0, max(0, len(c[k]["strm"]) - 1))
+        if all(len(c[j]["strm"]) > after for j in strms if j != k) and c["n"] > after:
+            c["raises"] = {"arg": k, "after": after}
+
+
+MC_ARGS = ("start", "modulo", "step")
+
+
+def raising(xs):
+    """a source that fails after its items"""
+    for x in xs:
+        yield x
+    raise KeyError("source failed")
+
+
+def mc_objects(c, tr=None):
+    """the three argument objects of a modulo_counter case.
+    c["alias"] = [names]: ONE object (described by the first name) is passed for all of them;
+    c["raises"] = {"arg", "after"}: that stream raises KeyError after `after` items."""
+    objs = {}
+    group = c.get("alias") or []
+    for k in MC_ARGS:
+        if k in group and k != group[0]:
+            objs[k] = objs[group[0]]
+        elif c.get("raises") and c["raises"]["arg"] == k:
+            a = c[k]
+            objs[k] = raising(arg_values(a)[:c["raises"]["after"]])
+        elif k in group and c[k].get("kind") == "thub":
+            a = c[k]
+            objs[k] = build_stream(arg_values(a), "thub", len(group))
+        else:
+            objs[k] = mc_build(c[k], tr)
+    return objs
+
+
+def mc_effective(c):
+    """the sequence every argument stands for (what goes to the Lean side).
+    One one-shot iterator passed for several arguments is pulled by the lock-step reader in the
+    order start, modulo, step: the arguments stand for the interleaved subsequences.  A list
+    changed in place (c["late"]) before an item is pulled delivers the new item."""
+    eff = {k: strip_arg(c[k]) for k in MC_ARGS}
+    group = c.get("alias") or []
+    if group:
+        base = c[group[0]]
+        xs = arg_items(base)
+        if base.get("kind") in ONE_SHOT:
+            for j, k in enumerate(group):
+                eff[k] = {"strm": xs[j::len(group)]}
+        else:
+            for k in group:
+                eff[k] = {"strm": list(xs)}
+    if c.get("raises"):
+        k = c["raises"]["arg"]
+        eff[k] = {"strm": arg_items(c[k])[:c["raises"]["after"]]}
+    if c.get("late"):
+        k = c["late"]["arg"]
+        xs = list(arg_items(c[k]))
+        xs[c["late"]["k"]] = c["late"]["v"]
+        eff[k] = {"strm": xs}
+    return eff
+
+
+def co_mc(c):
     from audiolazy import modulo_counter
+    tr = []
     try:
-        s = modulo_counter(mc_build(c["start"]), mc_build(c["modulo"]), mc_build(c["step"]))
+        objs = mc_objects(c, tr)
+        s = modulo_counter(objs["start"], objs["modulo"], objs["step"])
     except Exception as e:
         return {"out": [], "end": err_kind(e)}
-    out, end = drain(s, c["n"])
-    return {"out": [enc(x) for x in out], "end": end}
+    late = c.get("late")
+    if late:
+        # the argument list is changed in place after `at` outputs were taken (at = 0: after the
+        # call, before anything is consumed), at a position the counter cannot have pulled yet
+        it = iter(s)
+        out, end = yield from drain_co(it, late["at"])
+        if end == "fuel":
+            objs[late["arg"]][late["k"]] = py(late["v"], late["t"])
+            for obj, pristine in tr:
+                if obj is objs[late["arg"]]:
+                    pristine[late["k"]] = obj[late["k"]]
+            out2, end = yield from drain_co(it, c["n"] - late["at"])
+            out = out + out2
+    else:
+        out, end = yield from drain_co(s, c["n"])
+    return finish(tr, out, end, c)
+
+
+def req_mc(c):
+    r = {"entry": "modulo_counter", "n": c["n"]}
+    r.update(mc_effective(c))
+    if "pick" in c:
+        r["pick"] = c["pick"]
+    return r
 
 
 def cmp_mc(c, io, drv):
@@ -212,6 +533,8 @@ def cmp_mc(c, io, drv):
     else:
         exp_m, exp_r = model, rec
         exp_end = "fuel" if len(model) == c["n"] else "stop"
+        if c.get("raises") and exp_end == "stop" and len(model) == c["raises"]["after"]:
+            exp_end = "KeyError"               # the failure of the source comes through, after the outputs before it
     if got != exp_m or io["end"] != exp_end:
         res.append(("model", "modulo_counter[%s]: impl=%s/%s model=%s/%s" % (
             drv["branch"], io["out"], io["end"], [enc(x) for x in exp_m], exp_end)))
@@ -229,7 +552,7 @@ def cmp_mc(c, io, drv):
 
 def mc_branch(c):
     a, m, s = c["start"], c["modulo"], c["step"]
-    b = ("P" if "strm" in a else "-") + ("M" if "strm" in m else "-") + ("S" if "strm" in s else "-")
+    b = ("P" if is_strm(a) else "-") + ("M" if is_strm(m) else "-") + ("S" if is_strm(s) else "-")
     if "num" in m and "num" in s:
         mv, sv = dec(m["num"]), dec(s["num"])
         if sv == 0:
@@ -248,11 +571,19 @@ def tally_mc(eng, c, io):
     ts = set()
     for k in ("start", "modulo", "step"):
         a = c[k]
-        ts |= set(a["ts"]) if "strm" in a else {a["t"]}
+        ts |= set(a["ts"]) if is_strm(a) else {a["t"]}
+        if is_strm(a):
+            eng.count("mc_stream_kind", a.get("kind", "list"))
     eng.count("mc_types", "".join(sorted(ts)))
     m = c["modulo"]
-    if "strm" in m:
-        eng.count("mc_modulo_stream", "constant" if len(set(m["strm"])) <= 1 else "varying")
+    if is_strm(m):
+        eng.count("mc_modulo_stream", "constant" if len(set(arg_items(m))) <= 1 else "varying")
+    if c.get("alias"):
+        eng.count("mc_same_object_as", "+".join(c["alias"]) + ":" + c[c["alias"][0]].get("kind", "list"))
+    if c.get("late"):
+        eng.count("mc_list_changed_in_place", "%s:%s" % (c["late"]["arg"], "before-first-output" if c["late"]["at"] == 0 else "between-outputs"))
+    if c.get("raises"):
+        eng.count("mc_source_raises", c["raises"]["arg"])
 
 
 def shrink_mc(c):
@@ -413,7 +744,7 @@ def line_exact(c):
             and (den == 0 or is_dyadic((e - b) / den, 20)))
 
 
-def impl_line(c):
+def co_line(c):
     from audiolazy import line, fadein, fadeout
     try:
         if c["entry"] == "line":
@@ -427,8 +758,8 @@ def impl_line(c):
             s = fadeout(pv(c["dur"]))
     except Exception as e:
         return {"out": [], "end": err_kind(e)}
-    out, end = drain(s, FUEL)
-    return {"out": [enc(x) for x in out], "end": end}
+    out, end = yield from drain_co(s, c.get("fuel", FUEL))
+    return {"out": encs(c, out), "end": end}
 
 
 def req_line(c):
@@ -466,7 +797,7 @@ def shrink_num_fields(c, fields):
         q = qv(a)
         for r in (F(int(q)), F(0), F(1), F(2), q / 2):
             if r != q and abs(r) <= abs(q) + 2:
-                yield dict(c, **{k: {"v": enc(r), "t": a["t"] if (a["t"] != "i" or r.denominator == 1) else "F"}})
+                yield dict(c, **{k: {"v": enc(r), "t": fit_type(a["t"], r)}})
         if a["t"] != "F":
             yield dict(c, **{k: dict(a, t="F")})
 
@@ -516,7 +847,7 @@ def _dur_py(d):
     return None if d is None else (INF if d == "inf" else pv(d))
 
 
-def impl_const(c):
+def co_const(c):
     import audiolazy
     f = getattr(audiolazy, c["entry"])
     try:
@@ -528,10 +859,10 @@ def impl_const(c):
             s = f(_dur_py(c["dur"]))
     except Exception as e:
         return {"out": [], "end": err_kind(e)}
-    out, end = drain(s, c["n"])
+    out, end = yield from drain_co(s, c["n"])
     if c["entry"] == "impulse" and "one" in c:
         return {"out": out, "end": end}
-    return {"out": [enc(x) for x in out], "end": end}
+    return {"out": encs(c, out), "end": end}
 
 
 def req_const(c):
@@ -608,7 +939,7 @@ def gen_noise(rng, tier, scale):
     return cases
 
 
-def impl_noise(c):
+def co_noise(c):
     import audiolazy
     f = getattr(audiolazy, c["entry"])
     try:
@@ -620,7 +951,7 @@ def impl_noise(c):
             s = f(_dur_py(c["dur"]))
     except Exception as e:
         return {"out": [], "end": err_kind(e)}
-    out, end = drain(s, c["n"])
+    out, end = yield from drain_co(s, c["n"])
     ok = all(isinstance(x, float) and x == x for x in out)
     return {"out": [enc(x) for x in out] if ok else [repr(x) for x in out], "end": end, "floats": ok}
 
@@ -695,35 +1026,37 @@ def adsr_exact(c):
         slopes = [x / y for x, y in ((F(1), a), (s - 1, d), (s, r)) if y != 0]
         return all(is_dyadic(x, 20) for x in [dur, a, d, r, s] + slopes)
     sa = c["s"]
-    sus = [dec(sa["num"])] if "num" in sa else [dec(x) for x in sa["strm"]]
+    sus = [dec(sa["num"])] if "num" in sa else [dec(x) for x in (sa["cyc"] if "cyc" in sa else sa["strm"])]
+    if not sus:
+        return True
     slopes = [x / y for x, y in ((F(1), a), (sus[0] - 1, d)) if y != 0]
     return all(is_dyadic(x, 20) for x in [a, d] + sus + slopes)
 
 
-def impl_adsr(c):
+def co_adsr(c):
     from audiolazy import adsr, attack
+    tr = []
     try:
         if c["entry"] == "adsr":
             if c.get("how") == "kw":
                 s = adsr(dur=pv(c["dur"]), a=pv(c["a"]), d=pv(c["d"]), s=pv(c["s"]), r=pv(c["r"]))
             else:
                 s = adsr(pv(c["dur"]), pv(c["a"]), pv(c["d"]), pv(c["s"]), pv(c["r"]))
-            n = FUEL
+            n = c.get("fuel", FUEL)
         else:
-            s = attack(pv(c["a"]), pv(c["d"]), mc_build(c["s"]))
+            s = attack(pv(c["a"]), pv(c["d"]), mc_build(c["s"], tr))
             n = c["n"]
     except Exception as e:
         return {"out": [], "end": err_kind(e)}
-    out, end = drain(s, n)
-    return {"out": [enc(x) for x in out], "end": end}
+    out, end = yield from drain_co(s, n)
+    return finish(tr, out, end, c)
 
 
 def req_adsr(c):
     if c["entry"] == "adsr":
         return {"entry": "adsr", "dur": c["dur"]["v"], "a": c["a"]["v"], "d": c["d"]["v"],
                 "s": c["s"]["v"], "r": c["r"]["v"]}
-    return {"entry": "attack", "a": c["a"]["v"], "d": c["d"]["v"], "n": c["n"],
-            "s": {k: v for k, v in c["s"].items() if k in ("num", "strm")}}
+    return {"entry": "attack", "a": c["a"]["v"], "d": c["d"]["v"], "n": c["n"], "s": strip_arg(c["s"])}
 
 
 def cmp_adsr(c, io, drv):
@@ -780,7 +1113,7 @@ def arg_vals(a):
     return [dec(a["num"])] if "num" in a else [dec(x) for x in a["strm"]]
 
 
-def gen_arg(rng, mk, n, p_stream=0.4, kinds=("list", "iter", "Stream", "tuple")):
+def gen_arg(rng, mk, n, p_stream=0.4, kinds=KINDS):
     """a modulo_counter-style argument: number or stream of mk() values"""
     if rng.random() < p_stream:
         xs = [mk() for _ in range(rng.choice([n, n + 2, max(1, n - 3)]))]
@@ -792,7 +1125,7 @@ def gen_arg(rng, mk, n, p_stream=0.4, kinds=("list", "iter", "Stream", "tuple"))
     return {"num": enc(x), "t": typ_for(x, rng)}
 
 
-def float_arg(rng, lo, hi, n, p_stream=0.4, kinds=("list", "iter", "Stream", "tuple")):
+def float_arg(rng, lo, hi, n, p_stream=0.4, kinds=KINDS):
     mk = lambda: F(rng.uniform(lo, hi))
     a = gen_arg(rng, mk, n, p_stream, kinds)
     if "num" in a:
@@ -800,6 +1133,9 @@ def float_arg(rng, lo, hi, n, p_stream=0.4, kinds=("list", "iter", "Stream", "tu
     else:
         a["ts"] = ["f"] * len(a["strm"])
     return a
+
+
+SKINDS = ("Stream", "Stream", "sub", "thub")       # things a float can be multiplied with
 
 
 def gen_table(rng, tier, scale):
@@ -816,13 +1152,16 @@ def gen_table(rng, tier, scale):
             cycles = {"c0exp": kk}
             mk = lambda: F(rng.randint(-48, 48), rng.choice([1, 2, 4, 8, 16]))
             # freq / phase are "numbers or Streams" (they get multiplied by a float)
-            freq, phase = gen_arg(rng, mk, n, 0.4, ("Stream",)), gen_arg(rng, mk, n, 0.25, ("Stream",))
+            freq, phase = gen_arg(rng, mk, n, 0.4, SKINDS), gen_arg(rng, mk, n, 0.25, SKINDS)
         else:
             cycles = {"v": enc(F(rng.choice([1, 1, 2, 3, 0.5, 0.7]))), "t": "f"}
             if cycles["v"] in (1, 2, 3) and rng.random() < 0.5:
                 cycles["t"] = "i"
-            freq, phase = float_arg(rng, -3, 3, n, 0.4, ("Stream",)), float_arg(rng, -7, 7, n, 0.25, ("Stream",))
-        cases.append({"entry": "table_call", "table": [enc(x) for x in tbl], "tts": tts, "cycles": cycles,
+            freq, phase = float_arg(rng, -3, 3, n, 0.4, SKINDS), float_arg(rng, -7, 7, n, 0.25, SKINDS)
+        tk = rng.choice(["list", "list", "tuple", "array"])
+        if tk == "array":
+            tts = ["f"] * L
+        cases.append({"entry": "table_call", "table": [enc(x) for x in tbl], "tts": tts, "cycles": cycles, "tkind": tk,
                       "freq": freq, "phase": phase, "n": n, "exact": exact,
                       "default_phase": "num" in phase and dec(phase["num"]) == 0 and rng.random() < 0.5})
     for _ in range(k // 2):
@@ -848,28 +1187,40 @@ def cycles_py(cy):
     return py(cy["v"], cy["t"])
 
 
-def impl_table(c):
+def co_table(c):
     from audiolazy import TableLookup
-    tbl = [py(v, t) for v, t in zip(c["table"], c["tts"])]
+    tr = []
+    items = [py(v, t) for v, t in zip(c["table"], c["tts"])]
+    tk = c.get("tkind", "list")
+    if tk == "array":
+        import array
+        tbl = array.array("d", items)
+    else:
+        tbl = tuple(items) if tk == "tuple" else items
+    track(tr, tbl, items)
     if c["entry"] == "table_getitem":
         try:
-            return {"out": [enc(TableLookup(tbl)[pv(c["idx"])])], "end": "stop"}
+            r = TableLookup(tbl)[pv(c["idx"])]
+            return {"out": [enc(r)], "end": "stop" if args_intact(tr) else "ARG-MUTATED"}
         except Exception as e:
             return {"out": [], "end": err_kind(e)}
     try:
-        t = TableLookup(tbl, cycles_py(c["cycles"]))
+        cy = cycles_py(c["cycles"])
+        t = TableLookup(tbl, cy)
         if c.get("default_phase"):
-            s = t(mc_build(c["freq"]))
+            s = t(mc_build(c["freq"], tr))
         else:
-            s = t(mc_build(c["freq"]), mc_build(c["phase"]))
+            s = t(mc_build(c["freq"], tr), mc_build(c["phase"], tr))
     except Exception as e:
         return {"out": [], "end": err_kind(e)}
-    out, end = drain(s, c["n"])
-    return {"out": [enc(x) for x in out], "end": end}
+    out, end = yield from drain_co(s, c["n"])
+    if t.table is not tbl or t.cycles is not cy or len(t) != len(items):
+        end = "OBJECT-CHANGED"                    # a call leaves the object's attributes alone
+    return finish(tr, out, end, c)
 
 
 def strip_arg(a):
-    return {k: v for k, v in a.items() if k in ("num", "strm")}
+    return {k: v for k, v in a.items() if k in ("num", "strm", "cyc", "len")}
 
 
 def req_table(c):
@@ -997,6 +1348,8 @@ def gen_tops(rng, tier, scale):
                 tbl = [pow2() for _ in range(L)]
                 c.update(table=[enc(v) for v in tbl], tts=[typ_for(v, rng) for v in tbl])
             c["x"] = {"v": enc(x), "t": "i" if x.denominator == 1 and rng.random() < 0.5 else "f"}
+            if rng.random() < 0.2:                          # bool / int subclass / float subclass scalars
+                c["x"]["t"] = {"i": "b" if x in (0, 1) and rng.random() < 0.5 else "I", "f": "X"}[c["x"]["t"]]
         elif kind == "normalize":
             r = rng.random()
             if r < 0.1:
@@ -1126,15 +1479,16 @@ def gen_sin(rng, tier, scale):
     return cases
 
 
-def impl_sin(c):
+def co_sin(c):
     from audiolazy import sinusoid
+    tr = []
     try:
-        s = sinusoid(mc_build(c["freq"])) if c.get("default_phase") else \
-            sinusoid(mc_build(c["freq"]), mc_build(c["phase"]))
+        s = sinusoid(mc_build(c["freq"], tr)) if c.get("default_phase") else \
+            sinusoid(mc_build(c["freq"], tr), mc_build(c["phase"], tr))
     except Exception as e:
         return {"out": [], "end": err_kind(e)}
-    out, end = drain(s, c["n"])
-    return {"out": [enc(x) for x in out], "end": end}
+    out, end = yield from drain_co(s, c["n"])
+    return finish(tr, out, end, c)
 
 
 def req_sin(c):
@@ -1209,7 +1563,7 @@ def gen_ks(rng, tier, scale):
         ml = rng.choice([lm, lm, lm + 3, max(0, lm - 2), rng.randint(0, lm + 2)])
         mem = [F(rng.randint(-16, 16), 16) for _ in range(ml)]
         cases.append({"entry": "karplus", "freq": enc(F(freq)), "tau": tau, "memory": [enc(x) for x in mem],
-                      "mem_kind": rng.choice(["list", "iter", "callable", "Stream"]), "n": n})
+                      "mem_kind": rng.choice(["list", "iter", "callable", "Stream", "tuple", "method"]), "n": n})
     return cases
 
 
@@ -1222,19 +1576,24 @@ def ks_params(c):
     return freq, tau, delay, alpha
 
 
-def impl_ks(c):
+def co_ks(c):
     from audiolazy import karplus_strong, Stream
     freq, tau, delay, alpha = ks_params(c)
     mem = [float(dec(x)) for x in c["memory"]]
+    tr = [(mem, list(mem))]
     mk = c["mem_kind"]
+
+    class Holder(object):
+        def give(self, size):
+            return mem
     memory = mem if mk == "list" else iter(mem) if mk == "iter" else Stream(mem) if mk == "Stream" else \
-        (lambda size: mem)
+        tuple(mem) if mk == "tuple" else Holder().give if mk == "method" else (lambda size: mem)
     try:
         s = karplus_strong(freq, tau, memory=memory)
     except Exception as e:
         return {"out": [], "end": err_kind(e)}
-    out, end = drain(s, c["n"])
-    return {"out": [enc(x) for x in out], "end": end}
+    out, end = yield from drain_co(s, c["n"])
+    return finish(tr, out, end, c)
 
 
 def req_ks(c):
@@ -1322,7 +1681,7 @@ def gen_res(rng, tier, scale):
                     return F(0)
                 return F(rng.randint(d, 4 * d), d)
         c = {"entry": "resample", "sig": [enc(x) for x in sig], "sts": sts, "order": order, "zero": zero,
-             "n": n, "exact": exact, "sig_kind": rng.choice(["list", "iter", "Stream", "tuple"])}
+             "n": n, "exact": exact, "sig_kind": rng.choice(KINDS)}
         if rng.random() < 0.25:
             steps = [mk() for _ in range(rng.choice([0, 1, 3, 8, 20, 40]))]
             c["steps"] = [enc(x) for x in steps]          # old = Stream(steps), new = 1
@@ -1348,11 +1707,11 @@ def res_step(c):
     return {"num": enc(qv(c["old"]) / qv(c["new"]))}
 
 
-def impl_res(c):
+def co_res(c):
     from audiolazy import resample, Stream
-    sig = [py(v, t) for v, t in zip(c["sig"], c["sts"])]
-    k = c["sig_kind"]
-    sig = iter(sig) if k == "iter" else Stream(sig) if k == "Stream" else tuple(sig) if k == "tuple" else sig
+    items = [py(v, t) for v, t in zip(c["sig"], c["sts"])]
+    tr = []
+    sig = track(tr, build_stream(items, c["sig_kind"]), items)
     try:
         if "steps" in c:
             t = "F" if c["exact"] else "f"
@@ -1363,8 +1722,8 @@ def impl_res(c):
             s = resample(sig, old=pv(c["old"]), new=pv(c["new"]), order=c["order"], zero=pv(c["zero"]))
     except Exception as e:
         return {"out": [], "end": err_kind(e)}
-    out, end = drain(s, c["n"])
-    return {"out": [enc(x) for x in out], "end": end}
+    out, end = yield from drain_co(s, c["n"])
+    return finish(tr, out, end, c)
 
 
 def req_res(c):
@@ -1472,29 +1831,38 @@ def neigh_res(c):
 # dispatch
 # ----------------------------------------------------------------------------------------------
 ENTRIES = {
-    "modulo_counter": dict(gen=gen_mc, impl=impl_mc, cmp=cmp_mc, tally=tally_mc, shrink=shrink_mc,
-                           neigh=neigh_mc, classify=classify_mc),
-    "line": dict(gen=gen_line, impl=impl_line, cmp=cmp_line, tally=tally_line, shrink=shrink_line,
+    "modulo_counter": dict(gen=gen_mc, co=co_mc, cmp=cmp_mc, tally=tally_mc, shrink=shrink_mc,
+                           neigh=neigh_mc, classify=classify_mc, request=req_mc),
+    "line": dict(gen=gen_line, co=co_line, cmp=cmp_line, tally=tally_line, shrink=shrink_line,
                  neigh=neigh_line, classify=classify_line, request=req_line),
-    "ones": dict(gen=gen_const, impl=impl_const, cmp=cmp_const, tally=tally_const, shrink=shrink_const,
+    "ones": dict(gen=gen_const, co=co_const, cmp=cmp_const, tally=tally_const, shrink=shrink_const,
                  neigh=neigh_const, classify=classify_const, request=req_const),
-    "white_noise": dict(gen=gen_noise, impl=impl_noise, cmp=cmp_noise, tally=tally_const, shrink=shrink_const,
+    "white_noise": dict(gen=gen_noise, co=co_noise, cmp=cmp_noise, tally=tally_const, shrink=shrink_const,
                         neigh=neigh_const, classify=classify_noise, request=req_noise),
-    "adsr": dict(gen=gen_adsr, impl=impl_adsr, cmp=cmp_adsr, tally=tally_adsr, shrink=shrink_adsr,
+    "adsr": dict(gen=gen_adsr, co=co_adsr, cmp=cmp_adsr, tally=tally_adsr, shrink=shrink_adsr,
                  neigh=neigh_adsr, classify=classify_adsr, request=req_adsr),
-    "table_call": dict(gen=gen_table, impl=impl_table, cmp=cmp_table, tally=tally_table, shrink=shrink_table,
+    "table_call": dict(gen=gen_table, co=co_table, cmp=cmp_table, tally=tally_table, shrink=shrink_table,
                        neigh=neigh_table, classify=classify_table, request=req_table),
     "table_op": dict(gen=gen_tops, impl=impl_tops, cmp=cmp_tops, tally=tally_tops, shrink=shrink_tops,
                      classify=classify_tops, request=req_tops),
-    "sinusoid": dict(gen=gen_sin, impl=impl_sin, cmp=cmp_sin, tally=tally_sin, shrink=shrink_sin,
+    "sinusoid": dict(gen=gen_sin, co=co_sin, cmp=cmp_sin, tally=tally_sin, shrink=shrink_sin,
                      request=req_sin),
-    "resample": dict(gen=gen_res, impl=impl_res, cmp=cmp_res, tally=tally_res, shrink=shrink_res,
+    "resample": dict(gen=gen_res, co=co_res, cmp=cmp_res, tally=tally_res, shrink=shrink_res,
                      neigh=neigh_res, classify=classify_res, request=req_res),
-    "karplus": dict(gen=gen_ks, impl=impl_ks, cmp=cmp_ks, tally=tally_ks, shrink=shrink_ks, request=req_ks),
+    "karplus": dict(gen=gen_ks, co=co_ks, cmp=cmp_ks, tally=tally_ks, shrink=shrink_ks, request=req_ks),
 }
+from props import c19_hist as H          # noqa: E402  (helper modules; they use the helpers above)
+from props import c19_long as L          # noqa: E402
+from props import c19_multi as M         # noqa: E402
+ENTRIES["multi"] = dict(gen=None, impl=M.impl, cmp=M.compare, tally=M.tally, shrink=M.shrink,
+                        classify=M.classify, request=M.request)
+ENTRIES["tl_hist"] = dict(gen=H.generate, impl=H.impl, cmp=H.compare, tally=H.tally, shrink=H.shrink,
+                          classify=H.classify, request=H.request)
+GEN_OF = {}          # entry -> the entry whose generator makes it
 for _alias, _of in (("table_getitem", "table_call"), ("fadein", "line"), ("fadeout", "line"), ("zeros", "ones"), ("zeroes", "ones"),
                     ("impulse", "ones"), ("attack", "adsr"), ("gauss_noise", "white_noise")):
     ENTRIES[_alias] = dict(ENTRIES[_of], gen=None)
+    GEN_OF[_alias] = _of
 
 
 def extra_checks(eng):
@@ -1512,30 +1880,56 @@ def generate(rng, tier, scale=1):
     for name in sorted(ENTRIES):
         if ENTRIES[name]["gen"]:
             cases.extend(ENTRIES[name]["gen"](rng, tier, scale))
+    cases.extend(M.generate(rng, tier, scale, cases))
+    cases.extend(L.generate(rng, tier, scale))
     return cases
 
 
+def sparse(xs, idx):
+    """long runs: only the positions `idx` of an output list are transported"""
+    return {"n": len(xs), "at": [xs[i] for i in idx if i < len(xs)]}
+
+
+def co_impl(c):
+    """the impl coroutine of a case (generator-like entries)"""
+    obs = yield from ENTRIES[c["entry"]]["co"](c)
+    if "pick" in c and isinstance(obs.get("out"), list):
+        obs["out"] = sparse(obs["out"], c["pick"])
+    return obs
+
+
 def impl(c):
-    return ENTRIES[c["entry"]]["impl"](c)
+    e = ENTRIES[c["entry"]]
+    if "co" in e:
+        return run_co(co_impl(c), c.get("chunks"))
+    return e["impl"](c)
 
 
 def request(c):
     f = ENTRIES[c["entry"]].get("request")
-    return f(c) if f else c
+    r = f(c) if f else c
+    if "pick" in c and "pick" not in r:
+        r = dict(r, pick=c["pick"])
+    return r
 
 
 def compare(c, io, drv):
     if "err" in io and str(io["err"]).startswith("UNMAPPED"):
         return [("model", "harness failure: " + io.get("trace", ""))]
+    if "pick" in c:
+        return L.cmp_long(c, io, drv)
     return ENTRIES[c["entry"]]["cmp"](c, io, drv)
 
 
 def nontrivial(c, io):
-    return bool(io.get("out"))
+    out = io.get("out")
+    return bool(out["n"]) if isinstance(out, dict) else bool(out)
 
 
 def tally(eng, c, io):
-    eng.count("entry", c["entry"])
+    eng.count("entry", c["entry"] + (" (long run)" if "pick" in c else ""))
+    if "pick" in c:
+        return L.tally(eng, c, io)
     f = ENTRIES[c["entry"]].get("tally")
     if f:
         f(eng, c, io)
@@ -1571,6 +1965,16 @@ _MINIMAL = set()
 _KNOWN = None
 
 
+def case_size(c):
+    """what the shrinker minimises: the JSON text, plus the run length of a long run"""
+    n = len(json.dumps(c))
+    if "pick" in c:
+        n += 20 * c.get("fuel", c.get("n", 0)).bit_length() + c.get("fuel", c.get("n", 0)) // 8
+    if c.get("entry") == "multi":
+        n += 200 * len(c["subs"])
+    return n
+
+
 def shrink(c):
     """Shrinks here (one driver call per round) and hands the engine the final case only.
     Candidates must keep the *signature* of the failing case: the engine treats a shrunk case
@@ -1578,7 +1982,7 @@ def shrink(c):
     unknown failure into the neighbourhood of a known one (e.g. dur -> 0, or n -> past the end
     of a resampled input).  Known findings are not shrunk (their witnesses are recorded)."""
     global _KNOWN
-    f = ENTRIES[c["entry"]].get("shrink")
+    f = L.shrink if "pick" in c else ENTRIES[c["entry"]].get("shrink")
     key0 = json.dumps(c, sort_keys=True)
     if not f or key0 in _MINIMAL:
         return []
@@ -1589,7 +1993,7 @@ def shrink(c):
         _MINIMAL.add(key0)
         return []
     cur = c
-    for _ in range(40):
+    for _ in range(60):
         cands = list(f(cur))[:200]
         if not cands:
             break
@@ -1597,8 +2001,8 @@ def shrink(c):
         ok = [x for x, (k, sg) in zip(cands, sigs) if sg == sig0 and (k & kinds0)]
         if not ok:
             break
-        best = min(ok, key=lambda x: len(json.dumps(x)))
-        if len(json.dumps(best)) >= len(json.dumps(cur)):
+        best = min(ok, key=case_size)
+        if case_size(best) >= case_size(cur):
             break
         cur = best
     _MINIMAL.add(json.dumps(cur, sort_keys=True))
@@ -1606,10 +2010,14 @@ def shrink(c):
 
 
 def neighbours(c):
+    if "pick" in c:
+        return ()
     f = ENTRIES[c["entry"]].get("neigh")
     return f(c) if f else ()
 
 
 def classify(c, io, drv):
+    if "pick" in c:
+        return L.classify(c, io, drv)
     f = ENTRIES[c["entry"]].get("classify")
     return f(c, io, drv) if f else c["entry"]
